@@ -346,6 +346,254 @@ def rule_absint(f, site):
     return "abstract interpretation of %s: the failing edge of this assertion is infeasible on every path" % short(site.body.name)
 
 
+
+# --------------------------------------------------------------------------------------
+# P0-range: interval evaluation of the operands of a checked arithmetic operation over the MIR's own types
+
+_UINT = {"u8": 8, "u16": 16, "u32": 32, "u64": 64, "u128": 128, "usize": 64}
+
+
+def _ity(ty):
+    r = absint.INT_RANGES.get(ty) if ty not in ("bool", "char") else None
+    return r
+
+
+class _Ranges:
+    """Value intervals of integer locals at a program point, read off the definitions that reach it: the interval is the
+    type's range cut down to the union of what the reaching definitions can produce — constants, widening conversions
+    (`u16::from(x: u8)`, `as`), sums / products / shifts / remainders of intervals.  An argument, a local assigned
+    through a projection or whose address is taken mutably, and a definition by anything else keep the full range of
+    the type; a definition cycle (a value carried round a loop) is cut by the type range where the cycle closes.
+    Everything is a sound over-approximation: the only facts used are MIR types, reaching definitions on the CFG and
+    the meaning of the integer operators."""
+
+    def __init__(self, body):
+        self.b = body
+        self.defs = body.defs()
+        self.mutb = K.sym_of(body)._mutb
+        self.defpos = {}
+        for l, ds in self.defs.items():
+            for d in ds:
+                idx = len(body.blocks[d[0]]["stmts"]) if d[1] == "term" else d[1]
+                self.defpos.setdefault(l, {}).setdefault(d[0], []).append((idx, d))
+        for l in self.defpos:
+            for bb in self.defpos[l]:
+                self.defpos[l][bb].sort(key=lambda x: x[0])
+
+    def reaching(self, l, bb, idx):
+        """definitions of local l that reach the point just before statement idx of block bb; None in the result means
+        "the function entry" (no definition on some path)."""
+        out = []
+        per = self.defpos.get(l, {})
+        here = [d for i, d in per.get(bb, []) if i < idx]
+        if here:
+            return [here[-1]]
+        seen = set()
+        work = list(self.b.preds(bb))
+        if bb == 0:
+            out.append(None)
+        while work:
+            p = work.pop()
+            if p in seen:
+                continue
+            seen.add(p)
+            ds = per.get(p, [])
+            # a call's destination is written only on the edge to its target
+            ds2 = [d for i, d in ds]
+            if ds2:
+                out.append(ds2[-1])
+                continue
+            if p == 0:
+                out.append(None)
+            work.extend(self.b.preds(p))
+        return out
+
+    def local(self, l, bb, idx, seen=frozenset()):
+        tr = _ity(self.b.local_ty(l))
+        if tr is None:
+            return None
+        if l in self.mutb or len(seen) > 40:
+            return tr
+        if any(d[2] not in ("assign", "call") for d in self.defs.get(l, [])):
+            return tr
+        lo = hi = None
+        for d in self.reaching(l, bb, idx):
+            if d is None:
+                return tr                                   # an argument (or not yet assigned)
+            key = (l, d[0], d[1])
+            if key in seen:
+                return tr
+            didx = len(self.b.blocks[d[0]]["stmts"]) if d[1] == "term" else d[1]
+            r = self.rvalue(d[3]["rv"], d[0], didx, seen | {key}) if d[2] == "assign" else self.callret(d[3], d[0], didx, seen | {key})
+            if r is None or r[0] < tr[0] or r[1] > tr[1]:
+                return tr
+            lo = r[0] if lo is None else min(lo, r[0])
+            hi = r[1] if hi is None else max(hi, r[1])
+        return tr if lo is None else (lo, hi)
+
+    def place(self, pl, bb, idx, seen):
+        if not pl["p"]:
+            return self.local(pl["l"], bb, idx, seen)
+        # `(a op b).0` of a checked operation held in a tuple local
+        if len(pl["p"]) == 1 and pl["p"][0][0] == "f" and str(pl["p"][0][1]) == "0" and pl["l"] not in self.mutb:
+            ds = self.defs.get(pl["l"], [])
+            if len(ds) == 1 and (pl["l"], ds[0][0], ds[0][1]) not in seen:
+                d = ds[0]
+                key = (pl["l"], d[0], d[1])
+                didx = len(self.b.blocks[d[0]]["stmts"]) if d[1] == "term" else d[1]
+                if d[2] == "assign" and d[3]["rv"]["r"] == "bin" and d[3]["rv"]["bop"].endswith("WithOverflow"):
+                    return self.rvalue(d[3]["rv"], d[0], didx, seen | {key})
+                if d[2] == "call":
+                    return self.callret(d[3], d[0], didx, seen | {key}, field0=True)
+        # any other projection: the range of the projected type (the last projection carries it)
+        last = pl["p"][-1]
+        ty = last[3] if last[0] == "f" and len(last) > 3 else None
+        return _ity(ty) if ty else None
+
+    def operand(self, op, bb, idx, seen=frozenset()):
+        if "k" in op:
+            v = op["k"].get("v")
+            return (v, v) if isinstance(v, int) and not isinstance(v, bool) else _ity(op["k"].get("ty") or "")
+        pl = op.get("c") or op.get("m")
+        return self.place(pl, bb, idx, seen) if pl is not None else None
+
+    def rvalue(self, rv, bb, idx, seen):
+        r = rv["r"]
+        if r == "use":
+            return self.operand(rv["op"], bb, idx, seen)
+        if r == "cast" and rv.get("ck") == "IntToInt":
+            a, tr = self.operand(rv["op"], bb, idx, seen), _ity(rv.get("ty") or "")
+            if a is None or tr is None:
+                return tr
+            return a if a[0] >= tr[0] and a[1] <= tr[1] else tr
+        if r == "bin":
+            tr = _ity(rv.get("oty") or "")
+            op = rv["bop"].replace("WithOverflow", "").replace("Unchecked", "")
+            if op in ("Lt", "Le", "Gt", "Ge", "Eq", "Ne"):
+                return (0, 1)
+            a, b = self.operand(rv["a"], bb, idx, seen), self.operand(rv["b"], bb, idx, seen)
+            if a is None or b is None or tr is None:
+                return tr
+            return self.arith(op, a, b, tr)
+        return None
+
+    @staticmethod
+    def arith(op, a, b, tr):
+        """interval of `a op b` in a type of range tr (the full range when the exact result may leave it)."""
+        x = None
+        if op == "Add":
+            x = (a[0] + b[0], a[1] + b[1])
+        elif op == "Sub":
+            x = (a[0] - b[1], a[1] - b[0])
+        elif op == "Mul" and a[0] >= 0 and b[0] >= 0:
+            x = (a[0] * b[0], a[1] * b[1])
+        elif op == "Shr" and a[0] >= 0 and b[0] >= 0 and b[0] == b[1]:
+            x = (a[0] >> b[0], a[1] >> b[0])
+        elif op == "Shl" and a[0] >= 0 and b[0] >= 0 and b[0] == b[1] and b[0] < 200:
+            x = (a[0] << b[0], a[1] << b[0])
+        elif op == "BitAnd" and a[0] >= 0 and b[0] >= 0:
+            x = (0, min(a[1], b[1]))
+        # a division / remainder that executes has a non-zero divisor (MIR asserts it first; the unchecked form has it
+        # as a precondition)
+        elif op == "Div" and a[0] >= 0 and b[0] >= 0 and b[1] >= 1:
+            x = (a[0] // b[1], a[1] // max(b[0], 1))
+        elif op == "Rem" and a[0] >= 0 and b[0] >= 0 and b[1] >= 1:
+            x = (0, min(a[1], b[1] - 1))
+        elif op in ("BitOr", "BitXor") and a[0] >= 0 and b[0] >= 0:
+            n = max(a[1], b[1]).bit_length()
+            x = (0, (1 << n) - 1)
+        if x is None or x[0] < tr[0] or x[1] > tr[1]:
+            return tr
+        return x
+
+    def callret(self, t, bb, idx, seen, field0=False):
+        k = t["func"].get("k") if isinstance(t["func"], dict) else None
+        if not k or k.get("res_krate", k.get("krate")) not in ("core", "std", "alloc"):
+            return None
+        name, res = k.get("name"), k.get("res") or k.get("fn") or ""
+        args = t["args"]
+        ga = k.get("ga") or []
+        if name in ("from", "into") and len(args) == 1 and (k.get("trait") in ("std::convert::From", "std::convert::Into")) \
+                and len(ga) == 2 and _ity(ga[0]) and _ity(ga[1]) and not field0:
+            return self.operand(args[0], bb, idx, seen)          # lossless integer conversion: the same number
+        m = re.match(r"^(?:core|std)::num::<impl (\w+)>::(\w+)$", res)
+        if m and _ity(m.group(1)):
+            tr, meth = _ity(m.group(1)), m.group(2)
+            xs = [self.operand(a, bb, idx, seen) for a in args]
+            if any(x is None for x in xs):
+                return None
+            if field0 and meth in ("overflowing_shl", "overflowing_shr", "overflowing_add", "overflowing_mul", "overflowing_sub") and len(xs) == 2:
+                return self.arith({"shl": "Shl", "shr": "Shr", "add": "Add", "mul": "Mul", "sub": "Sub"}[meth.split("_")[1]], xs[0], xs[1], tr)
+            if not field0 and meth in ("wrapping_add", "wrapping_mul", "wrapping_sub", "wrapping_shl", "wrapping_shr",
+                                        "saturating_add", "saturating_mul", "saturating_sub") and len(xs) == 2:
+                base = {"add": "Add", "mul": "Mul", "sub": "Sub", "shl": "Shl", "shr": "Shr"}[meth.split("_")[1]]
+                return self.arith(base, xs[0], xs[1], tr)
+            if not field0 and meth in ("min", "max") and len(xs) == 2:
+                return (min(xs[0][0], xs[1][0]), min(xs[0][1], xs[1][1])) if meth == "min" else \
+                    (max(xs[0][0], xs[1][0]), max(xs[0][1], xs[1][1]))
+            if not field0 and meth in ("count_ones", "leading_zeros", "trailing_zeros", "count_zeros") and len(xs) == 1:
+                return (0, _UINT.get(m.group(1), 128))
+        return None
+
+
+_RANGES = {}
+
+
+def rule_type_range(f, site):
+    """P0-range: the operands of a checked `+`, `-`, `*`, shift or division, bounded by interval evaluation of their
+    definitions (types, widening conversions, constants, arithmetic of bounded values), cannot make the check fail."""
+    t = site.t
+    if t["t"] != "assert":
+        return None
+    kind = t["kind"]
+    m = re.match(r"^Overflow:(Add|Sub|Mul|Shl|Shr)$", kind)
+    if not m and kind not in ("DivisionByZero", "RemainderByZero"):
+        return None
+    ent = _RANGES.get(id(site.body))
+    if ent is None or ent[0] is not site.body:
+        ent = (site.body, _Ranges(site.body))
+        _RANGES[id(site.body)] = ent
+    R = ent[1]
+    NS = len(site.body.blocks[site.bb]["stmts"])        # the terminator's position
+    ops = t.get("ops") or []
+    if kind in ("DivisionByZero", "RemainderByZero"):
+        if len(ops) != 1:
+            return None
+        d = R.operand(ops[0], site.bb, NS)
+        if d is not None and (d[0] > 0 or d[1] < 0):
+            return "the divisor lies in [%d, %d] by interval evaluation of its definitions" % d
+        return None
+    if len(ops) != 2:
+        return None
+    a, b = R.operand(ops[0], site.bb, NS), R.operand(ops[1], site.bb, NS)
+    if a is None or b is None:
+        return None
+    op = m.group(1)
+    if op in ("Shl", "Shr"):
+        # the check is `amount < bit width of the shifted type`
+        cpl = t["cond"].get("c") or t["cond"].get("m")
+        ds = R.defs.get(cpl["l"], []) if cpl and not cpl["p"] else []
+        if len(ds) == 1 and ds[0][2] == "assign" and ds[0][3]["rv"]["r"] == "bin" and ds[0][3]["rv"]["bop"] == "Lt":
+            w = R.operand(ds[0][3]["rv"]["b"], site.bb, NS)
+            if w is not None and w[0] == w[1] and 0 <= b[0] and b[1] < w[0]:
+                return "the shift amount lies in [%d, %d], below the bit width %d" % (b[0], b[1], w[0])
+        return None
+    # the type of the operation: that of the checked tuple's first component
+    cpl = t["cond"].get("c") or t["cond"].get("m")
+    ds = R.defs.get(cpl["l"], []) if cpl else []
+    if len(ds) != 1 or ds[0][2] != "assign" or ds[0][3]["rv"]["r"] != "bin":
+        return None
+    tr = _ity(ds[0][3]["rv"].get("oty") or "")
+    if tr is None:
+        return None
+    x = {"Add": (a[0] + b[0], a[1] + b[1]), "Sub": (a[0] - b[1], a[1] - b[0]),
+         "Mul": (min(a[0] * b[0], a[0] * b[1], a[1] * b[0], a[1] * b[1]), max(a[0] * b[0], a[0] * b[1], a[1] * b[0], a[1] * b[1]))}[op]
+    if x[0] >= tr[0] and x[1] <= tr[1]:
+        return "operands lie in [%d, %d] and [%d, %d] by interval evaluation of their definitions: the %s result stays within %s" % (
+            a[0], a[1], b[0], b[1], op.lower(), ds[0][3]["rv"].get("oty"))
+    return None
+
+
 LEN_NAMES = ("len", "find", "rfind", "position", "rposition", "valid_up_to", "remaining", "count_ones", "leading_zeros",
              "trailing_zeros")
 
@@ -1584,6 +1832,7 @@ def rule_invariant_offsets(f, site):
 
 
 RULES = [("P0-const", lambda f, s, env: rule_const(s)),
+         ("P0-range", lambda f, s, env: rule_type_range(f, s)),
          ("P0-arg", lambda f, s, env: rule_arg_const(s)),
          ("P0-len", lambda f, s, env: (_LEN_FACTS.__setitem__(0, f), rule_len_arith(s))[1]),
          ("P0-layout", lambda f, s, env: rule_layout(f, s)),
@@ -1860,6 +2109,15 @@ def resolve_with_table(f, cl, table):
         if rule is None and row is None and free_rows.get((s.kind, re.sub(r"%\d+", "%", s.shape))):
             row = free_rows[(s.kind, re.sub(r"%\d+", "%", s.shape))][0]
             how = " [row of %s: the construct moved]" % short(row["fn"])
+        if rule is None and row is None:
+            # (4) a row whose reason was written for a family of functions (one impl per integer type …): the same
+            #     construct (kind and operand provenance) in another member of the family
+            for k2, r2 in table.items():
+                if r2.get("fn_family") and r2["kind"] == s.kind and re.sub(r"%\d+", "%", r2["shape"]) == re.sub(r"%\d+", "%", s.shape) \
+                        and re.search(r2["fn_family"], s.fn):
+                    row, used = r2, k2
+                    how = " [row of the family %s]" % r2["fn_family"]
+                    break
         if rule is None and row is None:
             mysig = leaf_signature(s.shape)
             for k2, r2, sig2 in free_fn.get((s.fn, s.kind), []):
